@@ -175,12 +175,17 @@ pub struct VarRec {
     pub pos: usize,
     pub id: String,
     pub ref_len: usize,
-    /// "." | "T" | "<DEL>" ...
+    /// ALT column: "." or a comma-separated allele list ("T", "TAC", "<DEL>", "<NON_REF>", "<*>", "A]chr0:5]", "T,<DEL>" ...).
+    /// The span oracle never looks at it: what defines the span is END / SVLEN / LEN / the REF length.
     pub alt: String,
     /// INFO/END (only generated for fileformat < 4.5)
     pub end: Option<usize>,
-    /// INFO/SVLEN (only generated for fileformat 4.5)
+    /// INFO/SVLEN (only generated for fileformat 4.5): the value of the allele `svlen_at` (0-based in ALT), the other
+    /// alleles carry a missing value
     pub svlen: Option<usize>,
+    pub svlen_at: usize,
+    /// FORMAT/LEN of the single sample (only in 4.5 files written with a sample column)
+    pub len: Option<usize>,
     /// length of an INFO/PAD string (fattens the record)
     pub pad: usize,
 }
@@ -192,24 +197,35 @@ pub struct VarSet {
     pub recs: Vec<VarRec>,
     pub flush_after: Vec<bool>,
     pub level: u8,
+    /// write a FORMAT column (LEN) and one sample
+    pub sample: bool,
 }
 
 impl VarSet {
-    /// (start, smallest end, largest end) per the VCF specification. For VCF < 4.5: END if present, else
-    /// POS + len(REF) - 1 (one value). For VCF 4.5 with SVLEN on a symbolic allele the specification text I can
-    /// reconstruct admits POS + SVLEN (the padding base at POS precedes the event) and noodles documents
-    /// POS + max(len(REF), SVLEN) - 1; both are kept and regions that separate them are not judged.
+    /// (start, smallest end, largest end) per the VCF specification; ALT is never consulted.
+    /// VCF < 4.5 (4.3 §INFO/END: "the variant spans positions POS–END ... used to compute BCF's rlen field and
+    /// important when indexing"): END if present, whatever the alleles are, else POS + len(REF) - 1.
+    /// VCF 4.5: the largest of POS + len(REF) - 1, the SVLEN-derived end and POS + LEN - 1 (FORMAT/LEN, <*> reference
+    /// blocks). For SVLEN the specification text I can reconstruct admits POS + SVLEN (the padding base at POS
+    /// precedes the event) and noodles documents POS + max(len(REF), SVLEN) - 1; both are kept and regions that
+    /// separate them are not judged.
     pub fn span(&self, r: &VarRec) -> (usize, usize, usize) {
         let ref_end = r.pos + r.ref_len - 1;
         if self.minor < 5 {
             let e = r.end.unwrap_or(ref_end);
             (r.pos, e, e)
-        } else if let Some(n) = r.svlen {
-            let lo = ref_end.max(r.pos + n.max(1) - 1);
-            let hi = ref_end.max(r.pos + n);
-            (r.pos, lo, hi)
         } else {
-            (r.pos, ref_end, ref_end)
+            let mut lo = ref_end;
+            let mut hi = ref_end;
+            if let Some(n) = r.svlen {
+                lo = lo.max(r.pos + n.max(1) - 1);
+                hi = hi.max(r.pos + n);
+            }
+            if let Some(n) = r.len {
+                lo = lo.max(r.pos + n.max(1) - 1);
+                hi = hi.max(r.pos + n.max(1) - 1);
+            }
+            (r.pos, lo, hi)
         }
     }
 }
@@ -224,10 +240,19 @@ pub fn vcf_header(set: &VarSet) -> io::Result<vcf::Header> {
     }
     t.push_str("##INFO=<ID=PAD,Number=1,Type=String,Description=\"padding\">\n");
     t.push_str("##ALT=<ID=DEL,Description=\"Deletion\">\n");
+    t.push_str("##ALT=<ID=DUP,Description=\"Duplication\">\n");
+    t.push_str("##ALT=<ID=NON_REF,Description=\"Any other allele\">\n");
+    if set.sample {
+        t.push_str("##FORMAT=<ID=LEN,Number=1,Type=Integer,Description=\"Length of <*> reference block\">\n");
+    }
     for c in &set.contigs {
         t.push_str(&format!("##contig=<ID={c}>\n"));
     }
-    t.push_str("#CHROM\tPOS\tID\tREF\tALT\tQUAL\tFILTER\tINFO\n");
+    if set.sample {
+        t.push_str("#CHROM\tPOS\tID\tREF\tALT\tQUAL\tFILTER\tINFO\tFORMAT\tS1\n");
+    } else {
+        t.push_str("#CHROM\tPOS\tID\tREF\tALT\tQUAL\tFILTER\tINFO\n");
+    }
     t.parse::<vcf::Header>().map_err(|e| io::Error::new(io::ErrorKind::InvalidInput, format!("header: {e}")))
 }
 
@@ -237,8 +262,11 @@ pub fn variant_buf(set: &VarSet, r: &VarRec) -> vcf::variant::RecordBuf {
     if let Some(e) = r.end {
         info.push(("END".into(), Some(Value::from(e as i32))));
     }
+    let alts: Vec<String> = if r.alt == "." { vec![] } else { r.alt.split(',').map(|a| a.to_string()).collect() };
     if let Some(n) = r.svlen {
-        info.push(("SVLEN".into(), Some(Value::from(vec![Some(n as i32)]))));
+        // Number=A: one value per ALT allele, missing for the alleles that are not the structural variant
+        let vals: Vec<Option<i32>> = (0..alts.len().max(1)).map(|i| if i == r.svlen_at { Some(n as i32) } else { None }).collect();
+        info.push(("SVLEN".into(), Some(Value::from(vals))));
     }
     if r.pad > 0 {
         let s: String = (0..r.pad).map(|i| (b'a' + ((i * 11 + r.pos) % 26) as u8) as char).collect();
@@ -251,8 +279,13 @@ pub fn variant_buf(set: &VarSet, r: &VarRec) -> vcf::variant::RecordBuf {
         .set_ids([r.id.clone()].into_iter().collect())
         .set_reference_bases(refb)
         .set_info(info.into_iter().collect());
-    if r.alt != "." {
-        b = b.set_alternate_bases(vec![r.alt.clone()].into());
+    if !alts.is_empty() {
+        b = b.set_alternate_bases(alts.into());
+    }
+    if set.sample {
+        use vcf::variant::record_buf::{Samples, samples::sample::Value as SValue};
+        let keys = [String::from("LEN")].into_iter().collect();
+        b = b.set_samples(Samples::new(keys, vec![vec![r.len.map(|n| SValue::from(n as i32))]]));
     }
     b.build()
 }
